@@ -1,7 +1,8 @@
 ----------------------------- MODULE MC_Escape -----------------------------
 (***************************************************************************)
 (* C10: every string of <= N symbols over                                  *)
-(*   < > & ' " # x ; 1 0 a l t SP  and the two-byte character e-acute      *)
+(*   < > & ' " # x ; 1 0 a l t SP, e-acute and five two-byte characters    *)
+(*   whose continuation byte is a markup byte + 0x80                       *)
 (* grown symbol by symbol (so that TLC's workers share the enumeration).   *)
 (* Theorems about Escape.tla checked as invariants; one REPLAY line per    *)
 (* string for the harness.                                                 *)
@@ -10,7 +11,10 @@ EXTENDS Escape, TLC, Json
 
 CONSTANTS N, Emit, Mode     \* Mode: "general" | "ref" (strings that start with "&#": signs, leading zeros, radix prefix, missing ';')
 Symbols == { <<60>>, <<62>>, <<38>>, <<39>>, <<34>>, <<35>>, <<120>>, <<59>>, <<49>>, <<48>>,
-             <<97>>, <<108>>, <<116>>, <<32>>, <<195, 169>> }
+             <<97>>, <<108>>, <<116>>, <<32>>, <<195, 169>>,
+             \* characters whose UTF-8 continuation byte is a markup byte + 0x80:  u-umlaut (BC ~ '<'), broken bar (A6 ~ '&'),
+             \* section sign (A7 ~ apostrophe), three quarters (BE ~ '>'), cent (A2 ~ quote)
+             <<195, 188>>, <<194, 166>>, <<194, 167>>, <<194, 190>>, <<194, 162>> }
 RefSymbols == { <<120>>, <<88>>, <<48>>, <<49>>, <<57>>, <<43>>, <<45>>, <<59>>, <<97>>, <<70>> }     \* x X 0 1 9 + - ; a F
 Levels == {"full", "partial", "minimal", "item"}
 
